@@ -19,4 +19,5 @@ let () =
   | "fs" -> Fsdrv.run ()
   | "adapters" -> Adrv.run ()
   | "hir" -> Hirdrv.run ()
+  | "emit" -> Emitdrv.run ()
   | m -> prerr_endline ("unknown mode " ^ m); exit 2
